@@ -316,17 +316,16 @@ def rule_PC4(ctx, rep):
     tk = tasks[0]
     arg = tk.args[0] if tk.args else None
     pm = parents(inner.node)
+    # the values the scheduled object can hold, each with the condition under which it holds: whenever pc is true the value is
+    # built with _ProgramCounterWrapper (decided on path conditions, so flags, polarity and conditional expressions do not matter)
+    from . import cond
     good = False
-    if isinstance(arg, ast.Name):
-        for st, val, how in definitions(inner.node, arg.id):
-            if val is not None and mentions(val, '_ProgramCounterWrapper'):
-                ifs = enclosing_ifs(st, pm, stop=inner.node)
-                if any(isinstance(i.test, ast.Name) and i.test.id == 'pc' and br == 'body' for i, br in ifs) \
-                        and astq.position(st) < astq.position(tk):
-                    # wrapper receives the coroutine object
-                    good = True
-    elif arg is not None and mentions(arg, '_ProgramCounterWrapper'):
-        good = True
+    if arg is not None:
+        cases = cond.value_cases(inner, arg, tk, pm)
+        # (a definition in terms of the previous value, `coro = wrap(coro)`, is reported as the name with its statement)
+        cases = [(f, st.value if isinstance(v, ast.Name) and isinstance(st, ast.Assign) else v, st) for f, v, st in cases]
+        on_pc = [(f, v) for f, v, _st in cases if cond.satisfiable(cond.conj([f, cond.atom('pc')]))]
+        good = bool(on_pc) and all(v is not None and mentions(v, '_ProgramCounterWrapper') for f, v in on_pc)
     if good:
         rep.ok('PC4', inner, tk, 'on the pc path the coroutine handed to Task is wrapped in _ProgramCounterWrapper')
     else:
